@@ -360,7 +360,14 @@ func WriteDefinitionTemplateSpec(w *formatting.IndentedWriter, td dsl.TypeDefini
 }
 
 func NamespaceIdentifierName(namespace string) string {
-	return formatting.ToSnakeCase(strings.ReplaceAll(namespace, ".", "::"))
+	parts := strings.Split(namespace, ".")
+	for i, part := range parts {
+		parts[i] = formatting.ToSnakeCase(part)
+		if _, reserved := reservedNames[parts[i]]; reserved {
+			parts[i] += "_"
+		}
+	}
+	return strings.Join(parts, "::")
 }
 
 func TypeNamespaceIdentifierName(t dsl.TypeDefinition) string {
